@@ -20,7 +20,7 @@ import time as _real_time
 import tty as _real_tty
 import types
 
-from .core import EventLog, HarnessError, Livelock, Quiescent
+from .core import BlockedForever, EventLog, HarnessError, Livelock, Quiescent
 from .core import arm_spin_timer as _arm_spin_timer
 
 FAKE_FD_BASE = 1_000_000
@@ -115,7 +115,14 @@ class ByteQueue(FakeFile):
                 return b""
             if self.nonblocking:
                 raise BlockingIOError(errno.EAGAIN, "would block")
-            raise HarnessError(f"blocking read on empty fake fd {self.name}: the simulation would hang")
+            # a blocking read on an empty descriptor: the whole (single-threaded) program sleeps until somebody writes
+            # to THIS descriptor - its own timers do not fire meanwhile
+            self.world.fault("blocking_read_on_empty_descriptor")
+            try:
+                self.world.block(None, lambda: [self.fd] if (self.buf or self.eof or self.hangup_errno is not None) else [], [self.name])
+            except Quiescent as e:
+                raise BlockedForever(f"blocking read on {self.name}: nothing will ever arrive") from e
+            return self.read(n)
         cap = n
         if self.read_caps:
             c = self.read_caps.pop(0)
